@@ -27,7 +27,9 @@ func reingestTable(db objects.Store, s *sorter.Sorter, tbl *objects.Table, logge
 			return
 		}
 		for _, row := range blk {
-			s.AddRow(row)
+			if err = s.AddRow(row); err != nil {
+				return
+			}
 		}
 	}
 	inserter := NewInserter(db, s, logger, opts...)
